@@ -190,6 +190,29 @@ static void crc_all(bool thorough)
                     if (main_poly || thorough) { messages(T, w, msb != 0, poly, full, 2, inits, n, nt); }
                     messages(T, w, msb != 0, poly, small, main_poly ? (thorough ? 6 : 5) : 3, inits, n, nt);
                 }
+                // 3c. chunks around the 8- and 16-bit counter boundaries (a byte counter narrower than the length wraps at 256 / 65536):
+                //     one chunk against the bitwise definition and against the same bytes fed in two pieces
+                {
+                    static unsigned char big[66000];
+                    static bool filled = false;
+                    if (!filled) { for (size_t i = 0; i < sizeof big; ++i) { big[i] = (unsigned char)(i * 131 + (i >> 8) * 7 + 3); } filled = true; }
+                    bool wide = (w == 8) || poly == 0x1021 || poly == 0x04C11DB7 || poly == 0x42F0E1EBA9EA3693ull; // the 16-bit boundary on one generator per width
+                    for (size_t len : std::vector<size_t>{255, 256, 257, 300, 511, 512, 513, 1000, 65535, 65536, 65537})
+                    {
+                        if (len > 2000 && !(wide && (w != 8 || poly == 0x07 || poly == 0x9B))) { continue; }
+                        uint64_t v0 = maskw(w);
+                        uint64_t want = msb ? ref_m(w, poly, big, len, v0) : ref_l(w, poly, big, len, v0);
+                        uint64_t got = crc(T, w, msb != 0, big, len, v0);
+                        uint64_t piece = crc(T, w, msb != 0, big + 100, len - 100, crc(T, w, msb != 0, big, 100, v0));
+                        ++n; ++nt;
+                        if (got != want || piece != want)
+                        {
+                            R.viol(nm(w, msb != 0) + "|definition|long-chunk", nm(w, msb != 0) + " with polynomial " + grid::hex(poly) + " on one chunk of " + std::to_string(len) + " bytes: " + grid::hex(got) + " (in two pieces " + grid::hex(piece) + ") is not the remainder of bit-by-bit division " + grid::hex(want),
+                                   "{\"width\":" + std::to_string(w) + ",\"poly\":" + grid::hex(poly) + ",\"len\":" + std::to_string(len) + "}");
+                            break;
+                        }
+                    }
+                }
                 // 3b. long messages: every length 6..40 (any unrolling by 2, 4, 8, 16 or 32 bytes meets each of its remainders,
                 //     including "remainder = a whole block"), two byte patterns, every split point
                 {
